@@ -15,6 +15,7 @@ Tokens (no blanks inside a token; `-` = absent / empty):
   `vgentl live,audio,numberInMedia,pto,startNumber,segDuration,dashTs,frNum,frDen,need|- <t:d/…>` → `num,expSeq|-,expDecode,expDur,tol/…`
   `vtldepth live,targetUs|-,tsbdUs,dashTs <t:d/…>` → `timelineShort` or `-`
   `vwin ts,sd,startNumber,pto,tsbdUs,nowUs,astUs,segDurUs` → `start,n` or `none`
+  `vavail periodAstUs,tsbdUs,ts,pto,startNumber,segDur,nowUs <exp>` → `startUs stopUs N|X|F`
   `vtol audio,ts,frNum,frDen,n` → tolerances of the first n template segments
   `vinit hasUrl,status,ranged,video <top,…|-> <moov,…|->` → `<load errors> <loaded 0|1> <validate errors if loaded> <errors when every request gets this response>`
   `vmpd <doc>` → located errors (see `parseDoc`)
@@ -163,6 +164,20 @@ def vtldepth : List String → Option String
     | [lv, tg, tsbd, ts] => do
       let r := timelineDepthErrs (← pBool lv) (← optInt tg) (← parseInt tsbd) (← parseNat ts) (← parseEntries ent)
       some (if r.isEmpty then "-" else "timelineShort")
+    | _ => none
+  | _ => none
+
+def vavail : List String → Option String
+  | [cfg, e] =>
+    match cfg.splitOn "," with
+    | [ast, tsbd, ts, pto, sn, sd, now] => do
+      let tsv ← parseNat ts
+      if tsv = 0 then none else
+      let a := segmentAvailability (← parseInt ast) (← parseInt tsbd) tsv (← parseInt pto) (← parseInt sn)
+        (← parseInt sd) (← parseExp e)
+      let d := match availDecision (← parseInt now) (some a) with
+        | .notYet => "N" | .expired => "X" | .fetch => "F"
+      some (joinWith " " [toString a.start, toString a.stop, d])
     | _ => none
   | _ => none
 
@@ -330,7 +345,7 @@ def vattrs (_ : List String) : Option String :=
 
 /-- channels exported to `Main.lean` (collected by harness/gen_main.py) -/
 def channels : List (String × (List String → Option String)) :=
-  [("vseg", vseg), ("vrep", vrep), ("vtl", vtl), ("vgentl", vgentl), ("vtldepth", vtldepth), ("vwin", vwin),
+  [("vseg", vseg), ("vrep", vrep), ("vtl", vtl), ("vgentl", vgentl), ("vtldepth", vtldepth), ("vwin", vwin), ("vavail", vavail),
    ("vtol", vtol),
    ("vinit", vinit), ("vmpd", vmpd), ("vrefresh", vrefresh), ("vreport", vreport), ("vattrs", vattrs)]
 
